@@ -261,6 +261,25 @@ func runRouter(e *Env) {
 					}
 					e.Fault("send-nil")
 				}
+				if e.Choose("wl.sendbad", 25) == 0 {
+					// another application error: a frame without a transport unit cannot be encoded. The
+					// caller gets an error or a panic of its own making - which it survives here - and
+					// nobody else gets anything: the client goes on working
+					func() {
+						defer func() {
+							if r := recover(); r != nil {
+								if simrt.IsAbort(r) {
+									panic(r) // the run is over: the simulator is unwinding this task
+								}
+								e.Probe("unencodable-send-panicked")
+							}
+						}()
+						if err := r.rt.Send(&cemi.LDataInd{}); err == nil {
+							e.Violate("C14", "unencodable-message-accepted", "Send of an L_Data frame without a transport unit reported success")
+						}
+					}()
+					e.Fault("send-unencodable")
+				}
 				r.doSend(false)
 			}
 			r.sendersLeft--
